@@ -84,6 +84,10 @@ claim("C37", "Proof over every path of handleUnary, handleStreamInit and handleS
 claim("C17", "Proof of the negotiation walk for all header strings and producible sets: chooseResponseEncoding returns the first candidate (custom-header tokens, then standard-header tokens not already offered) that is identity (-> no encoding) or producible, with used_custom iff the winner was offered on the custom header only; parseAcceptEncoding yields no empty and no duplicate token; containsEncoding is exact membership; gzipLevelFor's range; the advertised set is rendered from the producible set on every level change; finish compresses only a negotiated, non-empty Arrow body and stamps the header the negotiation chose.",
       "strings.Split/TrimSpace/ToLower/IndexByte are unknown functions of their arguments.", ["losslessness of zstd/gzip (codec correctness)", "ServeHTTP's negotiation block"])
 
+claim("C35", "Proof, for every pointer (offset, length) and every metadata string, that no panic escapes ResolveShmBatch (every panicking instruction and the call to ReadBatch, which may panic on a negative or wrapping pointer, sit behind the recovering defer); that on every normal path the region ReadBatch hands to the IPC reader is exactly s.data[offset:offset+length] with 0 <= length and offset+length <= s.size (a wrapped end never survives), on the plain and on the dictionary path, whose synthesized stream is schema prefix + region + end marker; that the offset released is the decimal value of the pointer's offset string; that the rebuilt metadata carries no pointer key and ends with the source key; that the writers (shmSliceWriter, shmCountWriter, both AllocateAndWrite paths) write only inside the slot the allocator returned and report exactly that (offset, length); that the schema-message cache is keyed by the identity of the schema the message was rendered from.",
+      "ShmSegment.size/name are declared immutable (checked package-wide); s.size >= 0 is assumed at the entry of ReadBatch/ResolveShmBatch (boundary; the constructors check size > header size). strconv.ParseUint/Atoi and arrow.Metadata observers are assumed contracts.",
+      ["read-back equality of schema and values (Arrow IPC encode/decode round trip, dictionary replacement)", "WritePayload writing the same bytes on the counting and on the copying pass"])
+
 # properties not claimed: reason
 NOT_APPLICABLE = {
     "C11": "relational two-run equivalence between the pipe loop and the HTTP handlers routed through gob, AEAD and Arrow IPC; contracts here are single-run and per function",
